@@ -4646,6 +4646,23 @@ class QuadraticBezier(Curve):
         """Calculate the length of the path up to a certain position"""
         a = self.start - 2 * self.control + self.end
         b = 2 * (self.control - self.start)
+        na = abs(a)
+        nb = abs(b)
+        if na <= 1e-6 * nb:
+            # (Nearly) uniform speed: the closed form below divides by powers of |a|.
+            return abs(a + b)
+        if abs(a.real * b.imag - a.imag * b.real) <= 1e-7 * na * nb:
+            # Control points collinear up to rounding: the closed form cancels catastrophically.
+            # The curve runs along one line, B(t) - B(0) = beta * t + alpha * t^2 in signed distance.
+            if nb == 0:
+                return na
+            alpha = (a.real * b.real + a.imag * b.imag) / nb
+            beta = nb
+            t_turn = -beta / (2.0 * alpha)
+            if 0.0 < t_turn < 1.0:
+                d_turn = beta * t_turn + alpha * t_turn * t_turn
+                return abs(d_turn) + abs(alpha + beta - d_turn)
+            return abs(alpha + beta)
         try:
             # For an explanation of this case, see
             # http://www.malczak.info/blog/quadratic-bezier-curve-length/
